@@ -535,7 +535,7 @@ func (w *Walker) load(s *State, addr *Term, v *ssa.UnOp, useMem bool) *Term {
 	}
 	switch addr.K {
 	case "faddr":
-		return &Term{K: "field", S: addr.S, A: []*Term{addr.A[0]}, V: v}
+		return &Term{K: "field", S: addr.S, A: []*Term{deaddr(addr.A[0])}, V: v}
 	case "iaddr":
 		return &Term{K: "index", A: addr.A, V: v}
 	case "alloc":
@@ -553,6 +553,14 @@ func (w *Walker) load(s *State, addr *Term, v *ssa.UnOp, useMem bool) *Term {
 		}
 	}
 	return &Term{K: "load", A: []*Term{addr}, V: v}
+}
+
+// deaddr turns nested field addresses into field paths: &(&p.A).B loaded is p.A.B
+func deaddr(t *Term) *Term {
+	if t != nil && t.K == "faddr" {
+		return &Term{K: "field", S: t.S, A: []*Term{deaddr(t.A[0])}, V: t.V}
+	}
+	return t
 }
 
 func (w *Walker) binop(s *State, fr *frame, v *ssa.BinOp) *Term {
@@ -634,7 +642,13 @@ func (w *Walker) callTerm(s *State, fr *frame, v ssa.Value, c *ssa.CallCommon) *
 	}
 	if f := c.StaticCallee(); f != nil {
 		t := &Term{K: "call", S: fnName(f), Fn: f, V: v, ID: id}
-		for _, a := range c.Args {
+		for i, a := range c.Args {
+			if sl, ok := a.(*ssa.Slice); ok && f.Signature.Variadic() && i == len(c.Args)-1 {
+				if _, ok := sl.X.(*ssa.Alloc); ok {
+					t.A = append(t.A, &Term{K: "varargs", A: w.sliceElems(s, fr, a)})
+					continue
+				}
+			}
 			t.A = append(t.A, w.eval(s, fr, a))
 		}
 		if _, ok := pureStatic[t.S]; ok {
